@@ -646,6 +646,51 @@ fn ensure_virtual_pages_mapped_to_physical_pages(ptr: NonNull<SlotMeta>, layout:
     }
 }
 
+#[cfg(folo_verif)]
+impl Slab {
+    /// Verification hook: read-only consistency probe of the slot array and free list.
+    pub(crate) fn __verif_check(&self) -> Result<(), String> {
+        let capacity = self.layout.capacity().get();
+
+        let mut occupied = 0_usize;
+        for index in 0..capacity {
+            // SAFETY: Index is in bounds; the slot metadata is always initialized.
+            let meta = unsafe { self.slot_ptr_unchecked(index).as_ref() };
+            if matches!(meta, SlotMeta::Occupied { .. }) {
+                occupied = occupied.wrapping_add(1);
+            }
+        }
+        if occupied != self.count {
+            return Err(format!("slab count {} but {occupied} occupied slots", self.count));
+        }
+
+        let mut free = 0_usize;
+        let mut cursor = self.next_free_slot_index;
+        while cursor < capacity {
+            free = free.wrapping_add(1);
+            if free > capacity {
+                return Err("free list is cyclic".to_string());
+            }
+            // SAFETY: Index is in bounds; the slot metadata is always initialized.
+            let meta = unsafe { self.slot_ptr_unchecked(cursor).as_ref() };
+            match meta {
+                SlotMeta::Vacant { next_free_slot_index } => cursor = *next_free_slot_index,
+                SlotMeta::Occupied { .. } => {
+                    return Err(format!("free list reaches occupied slot {cursor}"));
+                }
+            }
+        }
+        if free != capacity.wrapping_sub(self.count) {
+            return Err(format!(
+                "free list has {free} entries, expected {}",
+                capacity.wrapping_sub(self.count)
+            ));
+        }
+
+        Ok(())
+    }
+}
+
 #[cfg(test)]
 #[cfg_attr(coverage_nightly, coverage(off))]
 mod tests {
